@@ -272,12 +272,15 @@ func (f *file) Close() error {
 		return io.EOF
 	}
 
-	if err := f.ioc.UnsetReadWrite(&f.slot); err != nil {
-		return err
-	}
+	// The descriptor is released whatever the poller says: closed is already set, so if a failed deregistration
+	// (IO closed first, ENOMEM from epoll_ctl) returned early here no later Close could release it either.
+	err := f.ioc.UnsetReadWrite(&f.slot)
 	f.ioc.Deregister(&f.slot)
 
-	return syscall.Close(f.slot.Fd)
+	if closeErr := syscall.Close(f.slot.Fd); err == nil {
+		err = closeErr
+	}
+	return err
 }
 
 func (f *file) Closed() bool {
